@@ -768,7 +768,16 @@ class Interp:
 
     def x_ConditionalOperator(self, n, env):
         c, a, b = n["inner"]
-        return self.ev(a, env) if self.truth(self.rv(self.ev(c, env))) else self.ev(b, env)
+        cv = self.rv(self.ev(c, env))
+        if hasattr(self.dom, "select") and not isinstance(cv, (int, Ptr)) and cv is not None and cv is not POISON and self._pure(a) and self._pure(b):
+            return self.dom.select(self, cv, lambda: self.rv(self.ev(a, env)), lambda: self.rv(self.ev(b, env)))
+        return self.ev(a, env) if self.truth(cv) else self.ev(b, env)
+
+    def _pure(self, n):
+        """literal, possibly under casts / parentheses"""
+        while n.get("kind") in ("ImplicitCastExpr", "ParenExpr", "CStyleCastExpr", "CXXStaticCastExpr", "CXXFunctionalCastExpr", "ConstantExpr"):
+            n = n["inner"][-1]
+        return n.get("kind") in ("IntegerLiteral", "CXXBoolLiteralExpr")
 
     def x_ImplicitCastExpr(self, n, env):
         ck = n["castKind"]
@@ -800,7 +809,9 @@ class Interp:
             v = self.rv(v)
         if isinstance(v, int):
             return self.wrap(v, ts)
-        return v
+        if v is None or isinstance(v, (Cell, Obj, Leaf, Arr, Ptr, tuple)) or hasattr(v, "subscript"):
+            return v
+        return self.dom.cast(self, v, ts)
 
     x_CStyleCastExpr = x_CXXStaticCastExpr = x_CXXFunctionalCastExpr = x_CXXConstCastExpr = _xcast
 
